@@ -9,6 +9,8 @@
 
 from __future__ import annotations
 
+import math
+
 import numpy as _np
 import scipy.stats as _sts
 import z3
@@ -94,7 +96,15 @@ def kernel_scalar(fam, method, x, params):
                 e.axiom(z3.Implies(xs.t <= x2, v <= v2))
                 e.axiom(z3.Implies(x2 <= xs.t, v2 <= v))
     TERMS.setdefault(key, []).append((xs.t, tuple(p.t for p in ps), v))
-    if method == "cdf":
+    if method == "cdf" and fam == "vonmises":
+        # scipy's von Mises cdf is the unwrapped cumulative on the real line: within [loc - pi*scale, loc + pi*scale]
+        # it runs from 0 to 1, beyond it continues (cdf(x + 2 pi) = cdf(x) + 1): above 1 to the right, below 0 to the left
+        lo_ = ps[1].t - sym._q(math.pi) * ps[2].t
+        hi_ = ps[1].t + sym._q(math.pi) * ps[2].t
+        e.axiom(z3.Implies(z3.And(xs.t >= lo_, xs.t <= hi_), z3.And(v >= 0, v <= 1)))
+        e.axiom(z3.Implies(xs.t > hi_, v > 1))
+        e.axiom(z3.Implies(xs.t < lo_, v < 0))
+    elif method == "cdf":
         e.axiom(z3.And(v >= 0, v <= 1))
         if fam == "norm":
             # the normal cdf is a strictly increasing bijection R -> (0,1)
